@@ -29,8 +29,38 @@ func init() {
 	intrinsics["context.Context.Err"] = func(x *Exec, s *State, e *ast.CallExpr, c callee) (Val, bool) {
 		x.eval(s, c.recvX)
 		r := s.freshVal("ctxerr", x.typeOf(e))
-		if s.ctxDone[exprString(c.recvX)] {
-			s.assume(mkNot(mkEq(r.Tag, "0"))) // Err is non-nil once Done is closed
+		if d := s.ctxDoneTerm(exprString(c.recvX)); d != "false" {
+			s.assume(mkImp(d, mkNot(mkEq(r.Tag, "0")))) // Err is non-nil once Done is closed
+		}
+		// documented contract of Context.Err: nil, Canceled or DeadlineExceeded
+		if n, ok := x.typeOf(c.recvX).(*types.Named); ok && n.Obj().Pkg() != nil && n.Obj().Pkg().Path() == "context" {
+			sc := n.Obj().Pkg().Scope()
+			cv, _ := sc.Lookup("Canceled").(*types.Var)
+			dv, _ := sc.Lookup("DeadlineExceeded").(*types.Var)
+			if cv != nil && dv != nil {
+				cn, dl := x.readGlobal(s, cv), x.readGlobal(s, dv)
+				s.assume(mkOr(mkEq(r.Tag, "0"),
+					mkAnd(mkEq(r.Tag, cn.Tag), mkEq(r.Dat, cn.Dat)),
+					mkAnd(mkEq(r.Tag, dl.Tag), mkEq(r.Dat, dl.Dat))))
+				x.eng.note("Context.Err returns nil, context.Canceled or context.DeadlineExceeded (documented contract)")
+			}
+		}
+		return r, true
+	}
+	intrinsics["context.Cause"] = func(x *Exec, s *State, e *ast.CallExpr, c callee) (Val, bool) {
+		if len(e.Args) != 1 {
+			return Val{}, false
+		}
+		cv := x.eval(s, e.Args[0])
+		r := s.freshVal("ctxcause", x.typeOf(e))
+		if _, ok := x.eng.db.UFs["ctxcauseT"]; ok && cv.K == KIface {
+			// Cause is a function of the context
+			x.eng.usedUF["ctxcauseT"], x.eng.usedUF["ctxcauseD"] = true, true
+			s.assume(mkEq(r.Tag, app("ctxcauseT", cv.Tag, cv.Dat)))
+			s.assume(mkEq(r.Dat, app("ctxcauseD", cv.Tag, cv.Dat)))
+		}
+		if d := s.ctxDoneTerm(exprString(e.Args[0])); d != "false" {
+			s.assume(mkImp(d, mkNot(mkEq(r.Tag, "0")))) // non-nil once Done is closed
 		}
 		return r, true
 	}
